@@ -26,7 +26,7 @@ class Ctx:
             rc, out, err = C.sh("coq_makefile -f _CoqProject -o Makefile >/dev/null && make -k -j%d 2>&1" % C.NPROC,
                                 cwd=C.COQ, timeout=3000)
             log = out + err
-            failed = sorted(set(re.findall(r'File "\./([^"]+\.v)", line \d+', log)) |
+            failed = sorted(set(re.findall(r'File "\./([^"]+\.v)", line \d+[^\n]*\n(?:[^\n]*\n)?Error', log)) |
                             set(m + ".v" for m in re.findall(r"\*\*\* \[Makefile:\d+: (\S+)\.vo\] Error", log)))
             if not ok_src:
                 failed.append("gen/Params.v (srcfacts: %s)" % log_src[-300:])
@@ -118,6 +118,6 @@ TRUSTED = [
     "Coq 8.16.1 kernel (coqc, full .vo build; vm_compute used for closed computations; no native_compute)",
     "no Axiom/Parameter/Admitted/admit, no switched-off guard/positivity/universe checks (grep gate on every run)",
     "extraction: ExtrOcamlBasic only (bool, option, list, prod, unit, sumbool); no Extract Constant; Z/N/positive/nat kept as Coq datatypes; OCaml 4.13.1; hand-written driver ocaml/modelrun.ml (parsing, printing)",
-    "srcfacts (constants of /repo -> coq/gen/Params.v, regenerated every run)",
+    "srcfacts (constants of /repo -> coq/gen/Params.v; constructor wiring and the call budgets of the cache methods -> coq/gen/SrcFacts.v by the translator harness/srcfacts/skeleton.go; regenerated every run)",
     "Go drivers and rewriter of the scratch copy (harness/), virtual clock",
 ]
